@@ -54,7 +54,12 @@ static void verif_free(void *p) { (void)p; freed_cnt++; }
 bool eof; unsigned work_units, in_slots, out_slots, total_work_units, total_in_slots, total_out_slots; size_t in_granul, out_granul;
 unsigned num_worker; size_t max_mem; bool decompress; unsigned bs100k = 9; bool force, keep, verbose, print_cctrs, small, ultra;
 struct filespec ispec, ospec;
-void *xmalloc(size_t n) { void *p = malloc(n); ASSUME(p != 0); return p; }
+void *xmalloc(size_t n)
+{
+  /* C13: whatever a task allocates is bounded by a constant plus one output buffer - never by input or output size */
+  PROP(n <= 65536 + out_granul, "allocations of the decompression tasks are bounded by a constant plus one output buffer (C13)");
+  void *p = malloc(n); ASSUME(p != 0); return p;
+}
 void info(const char *fmt, ...) { (void)fmt; }
 static bool failed, fail_allowed;
 void failf(const struct filespec *f, const char *fmt, ...)
